@@ -180,9 +180,18 @@ class LineCheck:
         for idx in sorted(failing)[:5]:
             c = cases[idx]
             small = self.shrink(ctx, c)
+            why, mo, io = failing[idx], st["mres"][idx][0], st["ires"][idx][0]
+            if small != c:
+                s1 = self.correspond(ctx, [small])
+                w1 = (["implementation crashed / sanitizer report:\n" + e for _, e in s1["crashes"]] +
+                      ["Coq-extracted monitor on the implementation trace: " + w for _, w in s1["monfail"]])
+                if w1:
+                    why, mo, io = w1[0], s1["mres"][0][0], s1["ires"][0][0]
+                else:
+                    small = c
             txt = ("property %s violated on the implementation.\ncase: %s\n%s\n\nwhy: %s\n\nmodel output:\n%s\n\nimplementation output:\n%s\n"
-                   % (self.pid, small, self.describe(small), failing[idx], st["mres"][idx][0], st["ires"][idx][0]))
-            ctx.verdict.report(self.signature(small, failing[idx]), "monitor/sanitizer", txt, has_input=True)
+                   % (self.pid, small, self.describe(small), why, mo, io))
+            ctx.verdict.report(self.signature(small, why), "monitor/sanitizer", txt, has_input=True)
             found_input = True
         if st["div"] and not found_input:
             # widened search around the first divergences
